@@ -232,6 +232,49 @@ func Run(r *fw.Run) {
 			}
 		}, func() { r.Merge(l) }
 	})
+	// byte sweep: every byte value (and a few multi-byte fills) in slots of inputs with and without
+	// upper-case letters and exclamation marks, as path, version and escaped form
+	{
+		l := fw.NewLocal()
+		slots := [][2]string{{"", ""}, {"a", "b"}, {"A", "b"}, {"a", "B"}, {"v1.0.0-RC", "1"}, {"v1.0.0-rc", "1"}, {"example.com/", "/x"}, {"example.com/A", "/x"},
+			{"!a", ""}, {"a!", "b"}, {"", "!b"}, {"x.y/!a", "z"}, {"CON", ""}, {"", ".A"}, {"aB", "cD"}}
+		var fills []string
+		for b := 0; b < 256; b++ {
+			fills = append(fills, string([]byte{byte(b)}))
+		}
+		fills = append(fills, "é", "É", "\u212a", "\ufffd", "\u0130", "\xe2\x82", "!!", "!Z", "!z")
+		r.Bounds["byte_sweep"] = fmt.Sprintf("%d slots x (256 byte values + %d other fills)", len(slots), len(fills)-256)
+		for _, sl := range slots {
+			for _, f := range fills {
+				s := sl[0] + f + sl[1]
+				l.States++
+				l.Transitions++
+				for _, kind := range []string{"path", "version"} {
+					l.Execs++
+					msg, ok := forward(kind, s)
+					if ok {
+						l.Nontrivial++
+						l.Outcomes["escape-"+kind+":ok"]++
+					}
+					if msg != "" {
+						r.Violation(kind+":"+strconv.QuoteToASCII(s), msg, caseT{kind, strconv.QuoteToASCII(s)})
+					}
+				}
+				for _, kind := range []string{"unpath", "unversion"} {
+					l.Execs++
+					msg, ok := backward(kind, s)
+					if ok {
+						l.Nontrivial++
+						l.Outcomes[kind+":ok"]++
+					}
+					if msg != "" {
+						r.Violation(kind+":"+strconv.QuoteToASCII(s), msg, caseT{kind, strconv.QuoteToASCII(s)})
+					}
+				}
+			}
+		}
+		r.Merge(l)
+	}
 	r.Extra["injectivity_table_paths"] = len(tabP)
 	r.Extra["injectivity_table_versions"] = len(tabV)
 	e, _ := module.EscapePath("a.a/BaZ")
